@@ -6,6 +6,12 @@ Open Scope string_scope.
 
 Definition CHECK_ROUND_PRECISION : Z := 2%Z.
 Definition ROUND_PRECISION : Z := 6%Z.
+(* priceable(): INF = max(budget, costs) * BIGM_FACTOR *)
+Definition ANCHOR_BIGM_FACTOR : Z := 10%Z.
+(* exhaustion_by_budget_increase defaults: step = B * (num/den); bound = B * (num_ballots + k) *)
+Definition INCREASE_STEP_NUM : Z := 1%Z.
+Definition INCREASE_STEP_DEN : positive := 100%positive.
+Definition INCREASE_BOUND_PLUS : Z := 1%Z.
 Definition wrapped_ApprovalBallot : list string := ["__and__"; "__iand__"; "__ior__"; "__isub__"; "__ixor__"; "__or__"; "__rand__"; "__ror__"; "__rsub__"; "__rxor__"; "__sub__"; "__xor__"; "copy"; "difference"; "difference_update"; "intersection"; "intersection_update"; "symmetric_difference"; "symmetric_difference_update"; "union"].
 Definition wrapped_ApprovalMultiProfile : list string := ["__add__"; "__and__"; "__iadd__"; "__iand__"; "__imul__"; "__ior__"; "__isub__"; "__mul__"; "__or__"; "__ror__"; "__sub__"; "copy"].
 Definition wrapped_ApprovalProfile : list string := ["__add__"; "__getitem__"; "__iadd__"; "__imul__"; "__mul__"; "__reversed__"; "__rmul__"; "copy"; "reverse"].
